@@ -1643,8 +1643,23 @@ class CodeGenerator(StructuredCodeGenerator):
                         subscript_str=subscript_str,
                         expr=str(expr)[:50]))
 
-            from dagrt.data import UserType
+            from dagrt.data import Array, UserType
             if not isinstance(sym_kind, UserType):
+                if isinstance(sym_kind, Array) and not assignee_subscript:
+                    # Arrays are indexed from zero. Automatic (re)allocation
+                    # on assignment would give the result of an array
+                    # expression a lower bound of one.
+                    with FortranIfEmitter(
+                            self.emitter,
+                            "allocated(%s)" % assignee_fortran_name, self):
+                        self.emit("deallocate(%s)" % assignee_fortran_name)
+
+                    self.emit(
+                            "allocate({name}(0:size({expr})-1))"
+                            .format(
+                                name=assignee_fortran_name,
+                                expr=self.expr(expr)))
+
                 self.emit(
                         "{name}{subscript_str} = {expr}"
                         .format(
